@@ -160,7 +160,19 @@ pub fn scenario_id(prop: &str) -> u64 {
     prop.bytes().fold(0u64, |a, b| a.wrapping_mul(131).wrapping_add(b as u64))
 }
 
-fn draw_dec_spec(rng: &mut Rng, prop: &str, skip_fast: bool) -> (DecSpec, DecStream) {
+fn draw_dec_spec(rng: &mut Rng, prop: &str, skip_fast: bool, run_index: u64) -> (DecSpec, DecStream) {
+    // every fourth decoder run takes its stream from the systematic
+    // enumeration of short token sequences (the schedule stays random)
+    if !crate::gen::tiny() && run_index % 4 == 1 && prop != "C10" {
+        let k = run_index / 4;
+        let enc = crate::encs::STATEFUL[(k % crate::encs::STATEFUL.len() as u64) as usize];
+        let bytes = enumerated_stream(enc, k / crate::encs::STATEFUL.len() as u64);
+        let bom = rng.pick(&[Bom::Sniff, Bom::Remove, Bom::Off, Bom::Off]);
+        let repl = if prop == "C09" { true } else { rng.chance(2, 3) };
+        let form16 = rng.chance(2, 5);
+        let st = DecStream { bytes: bytes.clone(), strategy: "enumerated-tokens", corrupt: false, truncate: false, bom_prefix: false };
+        return (DecSpec { enc, bom, repl, form16, stream: bytes, skip_fast }, st);
+    }
     let enc = crate::encs::pick(rng);
     let bom = match prop {
         "C10" => rng.pick(&[Bom::Sniff, Bom::Sniff, Bom::Remove, Bom::Off]),
@@ -267,7 +279,7 @@ pub fn generate(prop: &str, rng: &mut Rng, skip_fast: bool, run_index: u64) -> (
     };
     match scen {
         0 => {
-            let (spec, st) = draw_dec_spec(rng, prop, skip_fast);
+            let (spec, st) = draw_dec_spec(rng, prop, skip_fast, run_index);
             let kinds_all: Vec<u8> = if spec.form16 {
                 vec![K_U16]
             } else if prop == "C05" {
@@ -975,7 +987,7 @@ pub fn execute(prop: &str, case: &mut Case, source: Source) -> RunOut {
         if strategy.contains("+truncate") {
             out.flags.push("fault_truncate_stream");
         }
-        for (k, f) in [("encoded-text", "workload_encoded_text"), ("edge-alphabet", "workload_edge_alphabet"), ("long-runs", "workload_long_runs"), ("ascii", "workload_ascii"), ("token-grammar", "workload_token_grammar")] {
+        for (k, f) in [("encoded-text", "workload_encoded_text"), ("edge-alphabet", "workload_edge_alphabet"), ("long-runs", "workload_long_runs"), ("ascii", "workload_ascii"), ("token-grammar", "workload_token_grammar"), ("enumerated-tokens", "workload_enumerated_tokens")] {
             if strategy.starts_with(k) {
                 out.flags.push(f);
             }
